@@ -15794,7 +15794,7 @@ cgns_ptset *cgi_ptset_address(int local_mode, int *ier)
         (*ier) = CG_NODE_NOT_FOUND;
         return CG_OK;
     }
-    if (parent_id) {
+    if (parent_id && local_mode == CG_MODE_WRITE) {
         if (cgi_delete_node (parent_id, ptset->id)) {
             (*ier) = CG_ERROR;
             return CG_OK;
